@@ -1,0 +1,49 @@
+//go:build verif
+
+/*
+ * Cadence - The resource-oriented smart contract programming language
+ *
+ * Copyright Flow Foundation
+ *
+ * Licensed under the Apache License, Version 2.0 (the "License");
+ * you may not use this file except in compliance with the License.
+ * You may obtain a copy of the License at
+ *
+ *   http://www.apache.org/licenses/LICENSE-2.0
+ *
+ * Unless required by applicable law or agreed to in writing, software
+ * distributed under the License is distributed on an "AS IS" BASIS,
+ * WITHOUT WARRANTIES OR CONDITIONS OF ANY KIND, either express or implied.
+ * See the License for the specific language governing permissions and
+ * limitations under the License.
+ */
+
+package runtime
+
+import (
+	"github.com/onflow/cadence/bbq"
+)
+
+// Verification hooks. Compiled only with the `verif` build tag.
+// They add read/configure access for an external simulation harness
+// and change no behaviour of the runtime.
+
+// VerifSetPeepholeOptimizations enables or disables the compiler's peephole
+// optimizations for a VM environment. It reports whether the environment is a VM environment.
+func VerifSetPeepholeOptimizations(env Environment, enabled bool) bool {
+	vmEnv, ok := env.(*vmEnvironment)
+	if !ok {
+		return false
+	}
+	vmEnv.compilerConfig.PeepholeOptimizationsEnabled = enabled
+	return true
+}
+
+// VerifCompiledProgram returns the compiled bytecode program of a runtime program,
+// or nil if the program has not been compiled.
+func VerifCompiledProgram(program *Program) *bbq.InstructionProgram {
+	if program == nil || program.compiledProgram == nil {
+		return nil
+	}
+	return program.compiledProgram.program
+}
